@@ -267,6 +267,17 @@ def repGreedyGen (ctx : Ctx) (id : Nat) (child : Gen) (min max : Nat) : Gen := f
       (fun n st2 => greedyNode child min bound fuel 1 (some (bound - 1)) n st2)
       (fun n st2 => greedyNode child min bound fuel 1 none n st2)).force 0 none
 
+/-- the minimum loop of `ReluctantRepeatIterator` (fix abfdb8a): a zero-width mandatory iteration completes the
+    minimum — every remaining mandatory iteration would repeat it at the same position -/
+def iterMinZ (child : Gen) (min : Nat) : (fuel : Nat) → (count pos : Nat) → St → Option (Nat × Nat) × St
+  | 0, _, _, st => (none, st.setPanic panicDiverge)
+  | f+1, count, pos, st =>
+    if count < min then
+      match first1 (child pos st) with
+      | (some (n, _), st') => if n == pos then (some (min, pos), st') else iterMinZ child min f (count+1) n st'
+      | (none, st') => (none, st')
+    else (some (count, pos), st)
+
 /-- ReluctantRepeatIterator after its first result -/
 def relMore (child : Gen) (max : Nat) : (fuel : Nat) → (count pos : Nat) → St → Step
   | 0, _, _, _ => .diverge
@@ -278,7 +289,7 @@ def relMore (child : Gen) (max : Nat) : (fuel : Nat) → (count pos : Nat) → S
     else .nil st
 
 def repReluctantGen (ctx : Ctx) (child : Gen) (min max : Nat) : Gen := fun position st =>
-  match iterMin child min (loopFuel ctx min) 0 position st with
+  match iterMinZ child min (loopFuel ctx min) 0 position st with
   | (none, st') => .nil st'
   | (some (count, pos), st') =>
     (Step.cons pos st' (fun st'' => relMore child max (6 * (ctx.len + 3)) count pos st'')).force 0 none
